@@ -13,6 +13,18 @@ Theorem C09_rate_fee_exact : forall rate total T calc pr,
 Proof. exact rate_fee_exact. Qed.
 Print Assumptions C09_rate_fee_exact.
 
+(* a value-level sufficient condition for exactness: mantissa(rate) * mantissa(total) < 2^96 and at most 28 decimals
+   together -- the class K_rate (known_findings.json) lies in the complement *)
+Theorem C09_rate_fee_small : forall rate total T calc,
+  dec_int_value total T -> d_scale rate + d_scale total <= 28 -> d_mant rate * d_mant total < B96 ->
+  rate_fee rate total = Ok calc -> calc = rhu (d_mant rate * T) (pow10 (d_scale rate)).
+Proof.
+  intros rate total T calc HT Hs Hm H. pose proof H as H0. unfold rate_fee in H0.
+  destruct (dec_mul rate total) as [pr|] eqn:E; [|discriminate].
+  eapply rate_fee_exact; eauto. eapply dec_mul_small_exact2; eauto.
+Qed.
+Print Assumptions C09_rate_fee_small.
+
 Theorem C09_bid_fee_at_entry : forall e st sender funds id base fee price quote qsize size st' r,
   create_bid e st sender funds id base fee price quote qsize size = Ok (st', r) ->
   exists c p total rate calc,
